@@ -12,6 +12,7 @@ import (
 	"runtime/debug"
 	"sort"
 	"strconv"
+	"strings"
 	"time"
 )
 
@@ -29,6 +30,7 @@ func main() {
 	out := flag.String("out", "", "evidence directory (default <verif>/evidence)")
 	list := flag.Bool("list", false, "list properties")
 	dump := flag.String("dump", "", "debug: dump path summaries of the named function")
+	ssaDump := flag.String("ssa", "", "debug: print the SSA of the named function")
 	flag.Parse()
 
 	if *list {
@@ -62,6 +64,19 @@ func main() {
 	}
 	start := time.Now()
 
+	if *ssaDump != "" {
+		w, err := Load(*repo, *tier, false)
+		if err != nil {
+			fmt.Println("load failed:", err)
+			os.Exit(2)
+		}
+		for _, f := range w.Funcs {
+			if f.String() == *ssaDump || strings.HasSuffix(f.String(), *ssaDump) {
+				f.WriteTo(os.Stdout)
+			}
+		}
+		return
+	}
 	if *dump != "" {
 		w, err := Load(*repo, *tier, false)
 		if err != nil {
